@@ -125,6 +125,8 @@ func c11KeyClass(key string) string {
 		return "attachment-blob"
 	case strings.HasPrefix(key, "_sync:rb:") || strings.HasPrefix(key, "_sync:rev:"):
 		return "old-revision-body"
+	case strings.HasPrefix(key, "_sync:local:"):
+		return "local-document"
 	case strings.Contains(key, "user:"):
 		return "user"
 	case strings.Contains(key, "role:"):
@@ -142,7 +144,7 @@ func c11KeyClass(key string) string {
 // deciding key classes: a failed request must leave these untouched
 func c11Deciding(class string) bool {
 	switch class {
-	case "document", "user", "role", "user-email-index", "session":
+	case "document", "user", "role", "user-email-index", "session", "local-document":
 		return true
 	}
 	return false
@@ -549,6 +551,186 @@ func c11Requests() []c11Request {
 				func() string { return fmt.Sprintf("session document exists: %v", sessionDocExists()) },
 				[]c11Claim{{What: "a session delete reported successful removed the session (it must not work again when the user is re-enabled)", Chk: func() (bool, string) {
 					return !sessionDocExists(), fmt.Sprintf("session document still exists: %v", sessionDocExists())
+				}}}
+		}},
+		{Name: "doc-resurrect", Prepare: func(e *c11Env, n int) (func() *TestResponse, func() string, []c11Claim) {
+			id := fmt.Sprintf("c11doc%d", n)
+			rev := c11Rev(e.mustAdmin("PUT", "/{{.keyspace}}/"+id, `{"ch":["A"],"m":"old"}`, 201))
+			e.mustAdmin("DELETE", "/{{.keyspace}}/"+id+"?rev="+rev, "", 200)
+			m := fmt.Sprintf("marker-%d", n)
+			return func() *TestResponse { return e.admin("PUT", "/{{.keyspace}}/"+id, `{"ch":["B"],"m":"`+m+`"}`) },
+				func() string { return e.observeDoc(id) }, docClaims(e, id, m, false)
+		}},
+		{Name: "doc-delete-with-attachment", Prepare: func(e *c11Env, n int) (func() *TestResponse, func() string, []c11Claim) {
+			id := fmt.Sprintf("c11doc%d", n)
+			rev := c11Rev(e.mustAdmin("PUT", "/{{.keyspace}}/"+id, `{"ch":["A"],"m":"old","_attachments":{"a.txt":{"data":"`+att+`"}}}`, 201))
+			return func() *TestResponse { return e.admin("DELETE", "/{{.keyspace}}/"+id+"?rev="+rev, "") },
+				func() string {
+					return e.observeDoc(id) + e.admin("GET", "/{{.keyspace}}/"+id+"/a.txt", "").Body.String()
+				}, docClaims(e, id, "", true)
+		}},
+		{Name: "attachment-put", Prepare: func(e *c11Env, n int) (func() *TestResponse, func() string, []c11Claim) {
+			id := fmt.Sprintf("c11doc%d", n)
+			rev := c11Rev(e.mustAdmin("PUT", "/{{.keyspace}}/"+id, `{"ch":["A"],"m":"keep-`+fmt.Sprint(n)+`","_attachments":{"a.txt":{"data":"`+att+`"}}}`, 201))
+			content := fmt.Sprintf("put-attachment-%d", n)
+			claims := append(docClaims(e, id, "keep-"+fmt.Sprint(n), false),
+				c11Claim{What: "new attachment readable", Chk: func() (bool, string) {
+					r := e.admin("GET", "/{{.keyspace}}/"+id+"/b.bin", "")
+					return r.Code == 200 && r.Body.String() == content, fmt.Sprintf("GET b.bin -> %d %q", r.Code, r.Body.String())
+				}},
+				c11Claim{What: "attachment carried over still readable", Chk: func() (bool, string) {
+					r := e.admin("GET", "/{{.keyspace}}/"+id+"/a.txt", "")
+					return r.Code == 200 && r.Body.String() == "attachment-bytes-0123456789", fmt.Sprintf("GET a.txt -> %d %q", r.Code, r.Body.String())
+				}})
+			return func() *TestResponse {
+					return e.rt.SendAdminRequestWithHeaders("PUT", "/{{.keyspace}}/"+id+"/b.bin?rev="+rev, content, map[string]string{"Content-Type": "application/octet-stream"})
+				},
+				func() string {
+					return e.observeDoc(id) + e.admin("GET", "/{{.keyspace}}/"+id+"/a.txt", "").Body.String() + fmt.Sprint(e.admin("GET", "/{{.keyspace}}/"+id+"/b.bin", "").Code)
+				}, claims
+		}},
+		{Name: "attachment-delete", Prepare: func(e *c11Env, n int) (func() *TestResponse, func() string, []c11Claim) {
+			id := fmt.Sprintf("c11doc%d", n)
+			rev := c11Rev(e.mustAdmin("PUT", "/{{.keyspace}}/"+id, `{"ch":["A"],"m":"keep-`+fmt.Sprint(n)+`","_attachments":{"a.txt":{"data":"`+att+`"}}}`, 201))
+			claims := append(docClaims(e, id, "keep-"+fmt.Sprint(n), false), c11Claim{What: "attachment gone", Chk: func() (bool, string) {
+				r := e.admin("GET", "/{{.keyspace}}/"+id+"/a.txt", "")
+				return r.Code == 404, fmt.Sprintf("GET a.txt -> %d", r.Code)
+			}})
+			return func() *TestResponse { return e.admin("DELETE", "/{{.keyspace}}/"+id+"/a.txt?rev="+rev, "") },
+				func() string {
+					return e.observeDoc(id) + e.admin("GET", "/{{.keyspace}}/"+id+"/a.txt", "").Body.String()
+				}, claims
+		}},
+		{Name: "bulk-docs-one-document", Prepare: func(e *c11Env, n int) (func() *TestResponse, func() string, []c11Claim) {
+			// _bulk_docs answers 201 with one row per document: the row is the report ("error" in the row = failure)
+			id := fmt.Sprintf("c11doc%d", n)
+			rev := c11Rev(e.mustAdmin("PUT", "/{{.keyspace}}/"+id, `{"ch":["A"],"m":"old"}`, 201))
+			m := fmt.Sprintf("marker-%d", n)
+			return func() *TestResponse {
+					r := e.admin("POST", "/{{.keyspace}}/_bulk_docs", `{"docs":[{"_id":"`+id+`","_rev":"`+rev+`","ch":["B"],"m":"`+m+`"}]}`)
+					var rows []map[string]any
+					if r.Code == 201 && (json.Unmarshal(r.Body.Bytes(), &rows) != nil || len(rows) != 1 || rows[0]["error"] != nil || rows[0]["rev"] == nil) {
+						r.Code = 500 // the row reports a failure (or no row at all): not a success report for this document
+					}
+					return r
+				},
+				func() string { return e.observeDoc(id) }, docClaims(e, id, m, false)
+		}},
+		{Name: "doc-purge", Prepare: func(e *c11Env, n int) (func() *TestResponse, func() string, []c11Claim) {
+			// _purge answers 200 and lists the documents it purged: the listing is the report
+			id := fmt.Sprintf("c11doc%d", n)
+			e.mustAdmin("PUT", "/{{.keyspace}}/"+id, `{"ch":["A"],"m":"old"}`, 201)
+			return func() *TestResponse {
+					r := e.admin("POST", "/{{.keyspace}}/_purge", `{"`+id+`":["*"]}`)
+					if r.Code == 200 && !strings.Contains(r.Body.String(), `"`+id+`"`) {
+						r.Code = 500
+					}
+					return r
+				},
+				func() string { return e.observeDoc(id) }, []c11Claim{{What: "purged document gone (also from storage)", Chk: func() (bool, string) {
+					// (purge deliberately leaves the _vv / _mou xattrs on the tombstone: only the gateway's own metadata must be gone)
+					g := e.admin("GET", "/{{.keyspace}}/"+id, "")
+					r := e.admin("GET", "/{{.keyspace}}/_raw/"+id+"?redact=false", "")
+					return g.Code == 404 && (r.Code == 404 || !strings.Contains(r.Body.String(), `"_sync":{`)), fmt.Sprintf("GET -> %d, GET _raw -> %d %s", g.Code, r.Code, r.Body.String())
+				}}}
+		}},
+		{Name: "doc-update-granting-role", Prepare: func(e *c11Env, n int) (func() *TestResponse, func() string, []c11Claim) {
+			id := fmt.Sprintf("c11doc%d", n)
+			user := fmt.Sprintf("c11u%d", n)
+			role := fmt.Sprintf("c11r%d", n)
+			rch := fmt.Sprintf("viarole%d", n)
+			e.mustAdmin("PUT", "/{{.db}}/_role/"+role, `{"admin_channels":["`+rch+`"]}`, 201)
+			e.mustAdmin("PUT", "/{{.db}}/_user/"+user, `{"password":"letmein","admin_channels":["own"]}`, 201)
+			rev := c11Rev(e.mustAdmin("PUT", "/{{.keyspace}}/"+id, `{"ch":["A"],"m":"old"}`, 201))
+			e.mustAdmin("GET", "/{{.db}}/_user/"+user, "", 200)
+			m := fmt.Sprintf("marker-%d", n)
+			claims := append(docClaims(e, id, m, false), userHasChannel(e, user, rch, true))
+			return func() *TestResponse {
+					return e.admin("PUT", "/{{.keyspace}}/"+id+"?rev="+rev, `{"ch":["A"],"m":"`+m+`","grant":"`+user+`","grantrole":"`+role+`"}`)
+				},
+				func() string { return e.observeDoc(id) + e.observeUser(user) }, claims
+		}},
+		{Name: "doc-delete-revoking-role", Prepare: func(e *c11Env, n int) (func() *TestResponse, func() string, []c11Claim) {
+			id := fmt.Sprintf("c11doc%d", n)
+			user := fmt.Sprintf("c11u%d", n)
+			role := fmt.Sprintf("c11r%d", n)
+			rch := fmt.Sprintf("viarole%d", n)
+			e.mustAdmin("PUT", "/{{.db}}/_role/"+role, `{"admin_channels":["`+rch+`"]}`, 201)
+			e.mustAdmin("PUT", "/{{.db}}/_user/"+user, `{"password":"letmein","admin_channels":["own"]}`, 201)
+			rev := c11Rev(e.mustAdmin("PUT", "/{{.keyspace}}/"+id, `{"ch":["A"],"m":"old","grant":"`+user+`","grantrole":"`+role+`"}`, 201))
+			e.mustAdmin("GET", "/{{.db}}/_user/"+user, "", 200)
+			claims := append(docClaims(e, id, "", true), userHasChannel(e, user, rch, false))
+			return func() *TestResponse { return e.admin("DELETE", "/{{.keyspace}}/"+id+"?rev="+rev, "") },
+				func() string { return e.observeDoc(id) + e.observeUser(user) }, claims
+		}},
+		{Name: "user-update-password", Prepare: func(e *c11Env, n int) (func() *TestResponse, func() string, []c11Claim) {
+			user := fmt.Sprintf("c11u%d", n)
+			e.mustAdmin("PUT", "/{{.db}}/_user/"+user, `{"password":"letmein","admin_channels":["A"]}`, 201)
+			newpw := fmt.Sprintf("changed-%d", n)
+			auth := func(pw string) int {
+				return e.rt.SendUserRequestWithHeaders("GET", "/{{.db}}/", "", nil, user, pw).Code
+			}
+			return func() *TestResponse { return e.admin("PUT", "/{{.db}}/_user/"+user, `{"password":"`+newpw+`"}`) },
+				func() string {
+					return e.observeUser(user) + fmt.Sprintf("old password -> %d, new password -> %d", auth("letmein"), auth(newpw))
+				}, []c11Claim{
+					{What: "new password authenticates", Chk: func() (bool, string) { c := auth(newpw); return c == 200, fmt.Sprintf("GET / with the new password -> %d", c) }},
+					{What: "old password refused", Chk: func() (bool, string) { c := auth("letmein"); return c == 401, fmt.Sprintf("GET / with the old password -> %d", c) }},
+				}
+		}},
+		{Name: "user-update-roles", Prepare: func(e *c11Env, n int) (func() *TestResponse, func() string, []c11Claim) {
+			user := fmt.Sprintf("c11u%d", n)
+			r1, r2 := fmt.Sprintf("c11r%da", n), fmt.Sprintf("c11r%db", n)
+			e.mustAdmin("PUT", "/{{.db}}/_role/"+r1, `{"admin_channels":["via`+r1+`"]}`, 201)
+			e.mustAdmin("PUT", "/{{.db}}/_role/"+r2, `{"admin_channels":["via`+r2+`"]}`, 201)
+			e.mustAdmin("PUT", "/{{.db}}/_user/"+user, `{"password":"letmein","admin_roles":["`+r1+`"]}`, 201)
+			e.mustAdmin("GET", "/{{.db}}/_user/"+user, "", 200)
+			return func() *TestResponse { return e.admin("PUT", "/{{.db}}/_user/"+user, `{"admin_roles":["`+r2+`"]}`) },
+				func() string { return e.observeUser(user) }, []c11Claim{userHasChannel(e, user, "via"+r2, true), userHasChannel(e, user, "via"+r1, false)}
+		}},
+		{Name: "role-update-channels", Prepare: func(e *c11Env, n int) (func() *TestResponse, func() string, []c11Claim) {
+			role := fmt.Sprintf("c11r%d", n)
+			user := fmt.Sprintf("c11u%d", n)
+			e.mustAdmin("PUT", "/{{.db}}/_role/"+role, `{"admin_channels":["before`+fmt.Sprint(n)+`"]}`, 201)
+			e.mustAdmin("PUT", "/{{.db}}/_user/"+user, `{"password":"letmein","admin_roles":["`+role+`"]}`, 201)
+			e.mustAdmin("GET", "/{{.db}}/_user/"+user, "", 200)
+			return func() *TestResponse {
+					return e.admin("PUT", "/{{.db}}/_role/"+role, `{"admin_channels":["after`+fmt.Sprint(n)+`"]}`)
+				},
+				func() string { return e.observeRole(role) + e.observeUser(user) }, []c11Claim{
+					userHasChannel(e, user, "after"+fmt.Sprint(n), true), userHasChannel(e, user, "before"+fmt.Sprint(n), false)}
+		}},
+		{Name: "local-doc-put", Prepare: func(e *c11Env, n int) (func() *TestResponse, func() string, []c11Claim) {
+			id := fmt.Sprintf("c11loc%d", n)
+			m := fmt.Sprintf("marker-%d", n)
+			return func() *TestResponse { return e.admin("PUT", "/{{.keyspace}}/_local/"+id, `{"m":"`+m+`"}`) },
+				func() string { r := e.admin("GET", "/{{.keyspace}}/_local/"+id, ""); return fmt.Sprintf("%d %s", r.Code, r.Body.String()) },
+				[]c11Claim{{What: "local document readable", Chk: func() (bool, string) {
+					r := e.admin("GET", "/{{.keyspace}}/_local/"+id, "")
+					return r.Code == 200 && strings.Contains(r.Body.String(), m), fmt.Sprintf("GET _local -> %d %s", r.Code, r.Body.String())
+				}}}
+		}},
+		{Name: "local-doc-update", Prepare: func(e *c11Env, n int) (func() *TestResponse, func() string, []c11Claim) {
+			id := fmt.Sprintf("c11loc%d", n)
+			rev := c11Rev(e.mustAdmin("PUT", "/{{.keyspace}}/_local/"+id, `{"m":"old"}`, 201))
+			m := fmt.Sprintf("marker-%d", n)
+			return func() *TestResponse {
+					return e.admin("PUT", "/{{.keyspace}}/_local/"+id, `{"_rev":"`+rev+`","m":"`+m+`"}`)
+				},
+				func() string { r := e.admin("GET", "/{{.keyspace}}/_local/"+id, ""); return fmt.Sprintf("%d %s", r.Code, r.Body.String()) },
+				[]c11Claim{{What: "local document readable with the new body", Chk: func() (bool, string) {
+					r := e.admin("GET", "/{{.keyspace}}/_local/"+id, "")
+					return r.Code == 200 && strings.Contains(r.Body.String(), m), fmt.Sprintf("GET _local -> %d %s", r.Code, r.Body.String())
+				}}}
+		}},
+		{Name: "local-doc-delete", Prepare: func(e *c11Env, n int) (func() *TestResponse, func() string, []c11Claim) {
+			id := fmt.Sprintf("c11loc%d", n)
+			rev := c11Rev(e.mustAdmin("PUT", "/{{.keyspace}}/_local/"+id, `{"m":"old"}`, 201))
+			return func() *TestResponse { return e.admin("DELETE", "/{{.keyspace}}/_local/"+id+"?rev="+rev, "") },
+				func() string { r := e.admin("GET", "/{{.keyspace}}/_local/"+id, ""); return fmt.Sprintf("%d %s", r.Code, r.Body.String()) },
+				[]c11Claim{{What: "local document gone", Chk: func() (bool, string) {
+					r := e.admin("GET", "/{{.keyspace}}/_local/"+id, "")
+					return r.Code == 404, fmt.Sprintf("GET _local -> %d", r.Code)
 				}}}
 		}},
 		{Name: "session-delete", Prepare: func(e *c11Env, n int) (func() *TestResponse, func() string, []c11Claim) {
